@@ -14,7 +14,7 @@ META = {
                    'height at every merge, O4 peephole legality, O5 function bodies end in a return, O6 jumps stay inside their '
                    'function/loop, O7 every placeholder patched on an instruction boundary, O8 operand widths and provenance '
                    'agree between compiler, OpCode::operands() and VM. Plus structural contracts of the emit primitives, '
-                   'who writes the code buffer, index-range provenance and an inventory of unsafe operations.',
+                   'who writes the code buffer, index-range provenance and an inventory of unsafe operations. R02.9 pushframe saves the code position whole in the frame being left and popframe restores ip/bp from the frame below (no narrowed return address). R02.10 equality, which de-duplicates the constant pool, compares function descriptors by the whole word (entry and frame size).',
     'not_decided': ['memory safety of std/bitvec themselves', 'host stack exhaustion by deep recursion (C05/TRM)', 'exhaustion of memory'],
 }
 
